@@ -703,7 +703,7 @@ func c07R4(r *Report) {
 		// lengths announced by the peer inside the encrypted part: uint16 values read with binary.BigEndian.Uint16
 		allInstrs(f, func(in ssa.Instruction) {
 			c, ok := in.(*ssa.Call)
-			if !ok || calleeObj(c) == nil || calleeObj(c).Name() != "Uint16" || calleeObj(c).Pkg() == nil || calleeObj(c).Pkg().Path() != "encoding/binary" {
+			if !ok || !isBEDecode(c, 16) || c.Parent() == nil || relPkg(c.Parent()) != "crypto" || (c.Call.StaticCallee() != nil && c.Call.StaticCallee() == c.Parent()) {
 				return
 			}
 			helperFnParams = map[*ssa.Function][]*ssa.Parameter{}
